@@ -259,6 +259,20 @@ class Component( ComponentLevel7 ):
     for func, obj_name in provided_func_calls:
       parent._dsl.func_calls[func].add( eval(obj_name) )
 
+    # Put back the explicit constraints that ancestors declared on objects
+    # of the replaced component
+    for (host, table, name, cons) in top._dsl.__dict__.pop( "_saved_constraints", [] ):
+      if table == "M_constraints":
+        x0, x1 = name
+        c = ( eval(x0) if isinstance( x0, str ) else x0,
+              eval(x1) if isinstance( x1, str ) else x1, cons )
+        host._dsl.M_constraints.add( c )
+        top._dsl.all_M_constraints.add( c )
+      else:
+        k = eval(name)
+        getattr( host._dsl, table )[k] |= cons
+        getattr( top._dsl, "all_" + table )[k] |= cons
+
     # The connections and update block metadata put back above may have
     # lazily created more slices/fields of the new component's signals.
     # Register them, and the interfaces of the new component, as well.
@@ -406,6 +420,31 @@ class Component( ComponentLevel7 ):
             saved_func_calls.append( (func, repr(x)) )
         parent._dsl.func_calls[func] -= to_save
 
+      # Explicit constraints that the parent (or any ancestor) declared on
+      # signals / method ports of the deleted component are keyed by the
+      # deleted objects: take them out and save them by name.
+      saved_constraints = []
+      for host in hosts:
+        for table in ( "RD_U_constraints", "WR_U_constraints" ):
+          host_table = getattr( host._dsl, table )
+          top_table  = getattr( top._dsl, "all_" + table )
+          for k in [ k for k in host_table if k in removed_connectables ]:
+            cons = host_table.pop( k )
+            top_table[k] -= cons
+            if not top_table[k]:
+              del top_table[k]
+            saved_constraints.append( (host, table, repr(k), cons) )
+
+        stale = { c for c in getattr( host._dsl, "M_constraints", () )
+                  if c[0] in removed_connectables or c[1] in removed_connectables }
+        if stale:
+          host._dsl.M_constraints -= stale
+          top._dsl.all_M_constraints -= stale
+          for (x0, x1, is_equal) in stale:
+            saved_constraints.append( (host, "M_constraints",
+              ( repr(x0) if x0 in removed_connectables else x0,
+                repr(x1) if x1 in removed_connectables else x1 ), is_equal) )
+
       saved_connections = []
       saved_loopbacks   = set()
 
@@ -463,6 +502,8 @@ class Component( ComponentLevel7 ):
           new_connect_order.append( (x, y) )
 
       parent._dsl.connect_order = new_connect_order
+
+      top._dsl._saved_constraints = saved_constraints
 
       return saved_connections, saved_upblk_reads, saved_upblk_writes, saved_upblk_calls, \
              saved_func_reads, saved_func_writes, saved_func_calls
